@@ -31,7 +31,9 @@ WANTED = [("sbdfstring.c", "sbdf_convert_utf8_to_iso88591"), ("sbdfstring.c", "s
           ("valuetype.c", "sbdf_vt_write"), ("valuetype.c", "sbdf_vt_read"),
           # 32-bit integers in the default (little-endian) configuration: four bytes, then sbdf_swap (a no-op there)
           ("internals.c", "sbdf_read_int32"), ("internals.c", "sbdf_write_int32"),
-          ("internals.c", "sbdf_skip_string"), ("internals.c", "sbdf_calculate_array_capacity")]
+          ("internals.c", "sbdf_skip_string"), ("internals.c", "sbdf_calculate_array_capacity"),
+          # strings as the library stores them (an int length header in front of the bytes) and their writer
+          ("internals.c", "sbdf_get_array_length"), ("sbdfstring.c", "sbdf_str_len"), ("internals.c", "sbdf_write_string")]
 CALLABLE = set(w[1] for w in WANTED if len(w) == 2) | {"sbdf_swap"}
 
 
@@ -58,13 +60,15 @@ def callee_of(n):
     return c.get("referencedDecl", {}).get("name") if c.get("kind") == "DeclRefExpr" else None
 
 
-def call_stmt(ret, n, scope):
+def call_stmt(ret, n, scope, value_args_only=False):
     """SCall for a call of another translated function"""
     g = callee_of(n)
     if g not in CALLABLE: raise Untranslatable("call to " + str(g))
     args = []; cells = []
     for a in n["inner"][1:]:
         u = strip_casts(a)
+        if value_args_only and (u.get("kind") == "UnaryOperator" and u.get("opcode") == "&"):
+            raise Untranslatable("a call inside an expression that passes an address")
         if u.get("kind") == "UnaryOperator" and u.get("opcode") == "&":
             t = unparen(u["inner"][0])
             if t.get("kind") == "MemberExpr" and t.get("name") == "id" and t.get("isArrow"):
@@ -105,6 +109,7 @@ def ast_of(path, cfg=()):
 
 BIN = {"+": "Add", "-": "Sub", "*": "Mul", "/": "Div", "<<": "Shl", ">>": "Shr", "&": "BAnd", "|": "BOr", "^": "BXor",
        "<": "Lt", "<=": "Le", ">": "Gt", ">=": "Ge", "==": "Eq", "!=": "Ne"}
+PENDING = []          # calls met inside an expression: hoisted in front of the statement, the result in a temporary
 CTY = {"int": "TInt", "unsigned char": "TUChar", "char": "TChar", "const char": "TChar", "const unsigned char": "TUChar", "const int": "TInt",
        "unsigned int": "TUInt", "const unsigned int": "TUInt"}
 SIZE_T = ("unsigned long", "size_t")
@@ -195,6 +200,13 @@ def expr(n, scope):
                     if v is not None and qt(unparen(a0["inner"][0])) == "int":
                         f = Fx(); f.io = True; f.r.add(v); return '(EWriteInt32 (EVar "%s"))' % v, f
                 raise Untranslatable(cname + " of an int in an unsupported form")
+            if cname == "fwrite" and const_of(a1) == 1 and const_of(a2) is None and fparam and a0.get("kind") == "DeclRefExpr" \
+                    and a0.get("referencedDecl", {}).get("kind") == "ParmVarDecl" and is_charptr(qt(a0)):
+                pv = a0["referencedDecl"]["name"]
+                cnt, fc = expr(n["inner"][3], scope)
+                if fc.w or fc.io: raise Untranslatable("fwrite count with side effects")
+                f = Fx(); f.io = True; f.r.add(pv); f.r |= fc.r
+                return '(EWriteBuf (EVar "%s") %s)' % (pv, cnt), f
             if not (a0.get("kind") == "UnaryOperator" and a0.get("opcode") == "&" and const_of(a1) == 1 and const_of(a2) == 1 and fparam):
                 raise Untranslatable(cname + " other than (&x, 1, 1, f)")
             v = var_of(a0["inner"][0], scope)
@@ -213,6 +225,12 @@ def expr(n, scope):
                 f.io = True; f.stream = True
                 return "(ESeekCur %s)" % e, f
             raise Untranslatable("fseek other than (f, int, SEEK_CUR)")
+        if cname in CALLABLE:
+            tmp = "$c%d" % (len(EXTRA_LOCALS) + 1)
+            EXTRA_LOCALS.add(tmp)
+            PENDING.append(call_stmt(tmp, n, scope, value_args_only=True))
+            f = Fx(); f.r.add(tmp)
+            return '(EVar "%s")' % tmp, f
         raise Untranslatable("call to " + str(cname))
     if k == "ImplicitCastExpr" or k == "CStyleCastExpr":
         ck = n.get("castKind")
@@ -225,6 +243,14 @@ def expr(n, scope):
             if s.get("kind") == "UnaryOperator" and s.get("opcode") == "*":
                 p, f = expr(s["inner"][0], scope)
                 return "(EDeref %s)" % p, f
+            if s.get("kind") == "ArraySubscriptExpr" and qt(s) == "int":
+                base = unparen(s["inner"][0])
+                if base.get("kind") == "CStyleCastExpr" and base.get("castKind") == "BitCast" and qt(base).replace(" ", "") in ("int*", "constint*"):
+                    p_, fp = expr(base["inner"][0], scope)
+                    i_, fi = expr(s["inner"][1], scope)
+                    if fp.w or fi.w: raise Untranslatable("subscript with side effects")
+                    return "(ELoadInt32 %s %s)" % (p_, i_), fx_join(fp, fi)
+                raise Untranslatable("subscript of something that is not ((int*)p)")
             if s.get("kind") == "MemberExpr" and s.get("name") == "id":
                 b = strip_casts(s["inner"][0])
                 if b.get("kind") == "DeclRefExpr" and b.get("referencedDecl", {}).get("kind") == "ParmVarDecl":
@@ -242,7 +268,9 @@ def expr(n, scope):
                 # only for comparing the count returned by fread / fwrite with a literal
                 u = unparen(sub)
                 if u.get("kind") == "IntegerLiteral" and 0 <= int(u["value"]) < 2 ** 31: return expr(sub, scope)
-                raise Untranslatable("conversion to size_t of something that is not a small literal")
+                if qt(u) == "int":
+                    e, f = expr(sub, scope); return "(ECast TSizeT %s)" % e, f      # faults on a negative value
+                raise Untranslatable("conversion to size_t of " + qt(u))
             if t not in CTY: raise Untranslatable("cast to " + t)
             e, f = expr(sub, scope)
             return "(ECast %s %s)" % (CTY[t], e), f
@@ -356,6 +384,24 @@ def seq(parts):
 
 
 def stmt(n, scope, declared):
+    """a statement; calls met inside its expressions are hoisted in front of it"""
+    k = n.get("kind")
+    if k in ("CompoundStmt", "NullStmt", "BreakStmt"):
+        return stmt1(n, scope, declared)
+    del PENDING[:]
+    if k in ("WhileStmt", "ForStmt"):
+        out = stmt1(n, scope, declared)
+        return out
+    if k == "IfStmt":
+        # only the condition belongs to this statement; the branches flush their own
+        out = stmt1(n, scope, declared)
+        return out
+    out = stmt1(n, scope, declared)
+    pre = list(PENDING); del PENDING[:]
+    return seq(pre + [out]) if pre else out
+
+
+def stmt1(n, scope, declared):
     k = n.get("kind")
     if k == "CompoundStmt":
         return seq([stmt(c, scope, declared) for c in n.get("inner", [])])
@@ -385,13 +431,17 @@ def stmt(n, scope, declared):
         return '(SSeq %s (SIf (EVar "%s") %s %s))' % (call_stmt(v, c, scope), v, a, b)
     if k == "IfStmt":
         inner = n["inner"]
+        del PENDING[:]
         c, _ = expr(inner[0], scope)
+        pre = list(PENDING); del PENDING[:]
         a = stmt(inner[1], scope, declared)
         b = stmt(inner[2], scope, declared) if len(inner) > 2 else "SSkip"
-        return "(SIf %s %s %s)" % (c, a, b)
+        return seq(pre + ["(SIf %s %s %s)" % (c, a, b)])
     if k == "WhileStmt":
         if has_continue_or_break(n["inner"][1]): raise Untranslatable("break/continue in a loop")
+        del PENDING[:]
         c, _ = expr(n["inner"][0], scope)
+        if PENDING: raise Untranslatable("a call inside a loop condition")
         return "(SWhile %s %s)" % (c, stmt(n["inner"][1], scope, declared))
     if k == "ForStmt":
         init, _cv, cnd, inc, body = n["inner"]
